@@ -1,1 +1,120 @@
-pub fn main(_a: &[String]) -> i32 { 2 }
+//! record: seeded random drivers.  The cases are executed by worker subprocesses whose regexml has the
+//! tracer hook switched on (REGEXML_VERIF_TRACE), so the trace is written by the code under test at the
+//! return of every public call; this parent only generates jobs, enforces deadlines and notes faults
+//! (a call that never returned cannot log itself).
+use crate::gen::{self, Profile, Rng};
+use crate::{arg, pool, string_to_cps};
+use serde_json::{json, Value};
+use std::io::Write;
+use std::sync::Mutex;
+
+fn job(id: u64, pat: &str, flags: &str, xpath: bool, inputs: &[String], repls: &[String], unopt: bool) -> Value {
+    let mut calls = Vec::new();
+    for s in inputs {
+        let s = string_to_cps(s);
+        calls.push(json!({"op":"is_match","s":s}));
+        for r in repls {
+            calls.push(json!({"op":"replace","s":s,"r":string_to_cps(r)}));
+        }
+        calls.push(json!({"op":"tokenize","s":s}));
+        calls.push(json!({"op":"analyze","s":s}));
+    }
+    json!({"id":id,"pat":string_to_cps(pat),"flags":string_to_cps(flags),"x":xpath,"unopt":unopt,"calls":calls,
+           "pat_s":pat,"flags_s":flags})
+}
+
+pub fn main(args: &[String]) -> i32 {
+    let profile = arg(args, "--profile").unwrap_or("general").to_string();
+    let mode = arg(args, "--mode").unwrap_or("cases").to_string();
+    let seed: u64 = arg(args, "--seed").and_then(|s| s.parse().ok()).unwrap_or(1);
+    let count: u64 = arg(args, "--count").and_then(|s| s.parse().ok()).unwrap_or(1000);
+    let out = arg(args, "--out").unwrap_or("rec").to_string();
+    let nworkers: usize = arg(args, "--workers").and_then(|s| s.parse().ok()).unwrap_or(8);
+    let with_unopt = args.iter().any(|a| a == "--unopt");
+    let trace_dir = format!("{}/trace", out);
+    let _ = std::fs::remove_dir_all(&trace_dir);
+    std::fs::create_dir_all(&trace_dir).expect("trace dir");
+    std::env::set_var("REGEXML_VERIF_TRACE", &trace_dir);
+
+    let p = Profile::by_name(&profile);
+    let mut rng = Rng::new(seed ^ (profile.len() as u64) << 32 ^ (mode.len() as u64) << 40);
+    let mut jobs = Vec::new();
+    let mut id = 0;
+    let mut samples = Vec::new();
+    for _ in 0..count {
+        let xsd = rng.chance(p.xsd_percent);
+        let mut pat = gen::gen_pattern(&mut rng, &p, xsd);
+        match mode.as_str() {
+            "mutants" => {
+                let n = 1 + rng.below(2);
+                for _ in 0..n {
+                    pat = gen::mutate(&mut rng, &pat);
+                }
+            }
+            "garbage" => pat = gen::garbage(&mut rng, 24),
+            _ => {}
+        }
+        let flags = if mode == "garbage" && rng.chance(30) {
+            gen::garbage(&mut rng, 4)
+        } else {
+            rng.pick(&p.flagsets).to_string()
+        };
+        let ninputs = 3;
+        let mut inputs: Vec<String> = (0..ninputs).map(|_| gen::gen_input(&mut rng, &p, &pat)).collect();
+        if mode == "garbage" {
+            inputs[0] = gen::garbage(&mut rng, 24);
+        }
+        let mut repls: Vec<String> = p.repls.iter().map(|s| s.to_string()).collect();
+        if p.random_repl || mode == "garbage" {
+            repls.push(gen::gen_repl(&mut rng));
+            repls.push(gen::gen_repl(&mut rng));
+        }
+        if repls.is_empty() {
+            repls.push("[$0]".to_string());
+        }
+        id += 1;
+        if samples.len() < 5 {
+            samples.push(json!({"pattern": pat, "flags": flags, "xsd": xsd, "inputs": inputs, "repls": repls}));
+        }
+        jobs.push(job(id, &pat, &flags, !xsd, &inputs, &repls, false));
+        if with_unopt {
+            id += 1;
+            jobs.push(job(id, &pat, &flags, !xsd, &inputs, &repls, true));
+        }
+    }
+    let njobs = jobs.len();
+    let faults = Mutex::new(std::fs::File::create(format!("{}/faults.ndjson", out)).expect("faults file"));
+    let nfaults = Mutex::new(0u64);
+    pool::process(nworkers, jobs.into_iter(), |job, reply| {
+        // faults (hang / abort) were attributed call by call by the pool
+        let mut recs = Vec::new();
+        let ck = reply["compile"]["k"].as_str().unwrap_or("");
+        if ck == "hang" || ck == "abort" {
+            recs.push(json!({"ev":"fault","kind":ck,"call":"compile","pat_s":job["pat_s"],"flags":job["flags_s"],
+                             "x":job["x"],"s_s":"","unopt":job["unopt"]}));
+        }
+        if let Some(res) = reply["res"].as_array() {
+            for (i, r) in res.iter().enumerate() {
+                let k = r["k"].as_str().unwrap_or("");
+                if k == "hang" || k == "abort" {
+                    let call = &job["calls"][i];
+                    recs.push(json!({"ev":"fault","kind":k,"call":call["op"],"pat_s":job["pat_s"],
+                                     "flags":job["flags_s"],"x":job["x"],
+                                     "s_s":crate::cps_to_string(&call["s"]).unwrap_or_default(),"unopt":job["unopt"]}));
+                }
+            }
+        }
+        if !recs.is_empty() {
+            let mut f = faults.lock().unwrap();
+            for r in recs {
+                let _ = writeln!(f, "{}", r);
+                *nfaults.lock().unwrap() += 1;
+            }
+        }
+    });
+    let stats = json!({"profile": profile, "mode": mode, "seed": seed, "jobs": njobs, "samples": samples,
+                       "faults": *nfaults.lock().unwrap(),
+                       "skipped_jobs": pool::SKIPPED_JOBS.load(std::sync::atomic::Ordering::SeqCst)});
+    std::fs::write(format!("{}/record_stats.json", out), serde_json::to_string_pretty(&stats).unwrap()).expect("stats");
+    0
+}
